@@ -232,7 +232,7 @@ Section Equiv.
         eapply eqm_trans; [apply bind_assoc|]. apply bind_eqm; [apply Hev|]. intros kv.
         eapply eqm_trans; [apply bind_assoc|]. apply bind_eqm; [apply Hev|]. intros v.
         intros s. cbn. apply IH.
-      - apply bind_eqm; [apply Hev|]. intros v. apply bind_eqm; [apply flush_eq|]. intros d1.
+      - apply bind_eqm; [apply flush_eq|]. intros d1. apply bind_eqm; [apply Hev|]. intros v.
         apply bind_eqm_r. intros m. apply IH.
     Qed.
 
